@@ -170,6 +170,8 @@ fn macro_expand(
         t: SegmentType::Code,
         address: context.last_segment().unwrap().borrow().address,
     }))]));
+    #[cfg(avra_rs_verif)]
+    crate::verif_hook::yield_point(12);
     if let Some(macro_body) = macroses.get(macro_name) {
         let macro_body = if !ops.is_empty() {
             let mut processed = vec![];
